@@ -37,9 +37,11 @@ func (bla *BucketLeapArray) NewEmptyBucket() interface{} {
 }
 
 func (bla *BucketLeapArray) ResetBucketTo(bw *BucketWrap, startTime uint64) *BucketWrap {
-	atomic.StoreUint64(&bw.BucketStart, startTime)
+	// Clear the data before publishing the new start time, so that a reader which
+	// observes the new BucketStart never sees counts of the previous cycle.
 	mb := bw.Value.Load().(*MetricBucket)
 	mb.reset()
+	atomic.StoreUint64(&bw.BucketStart, startTime)
 	return bw
 }
 
